@@ -57,6 +57,8 @@ type Op struct {
 	Reason string `json:"reason,omitempty"`
 	Gen    int    `json:"gen,omitempty"` // address the process of this generation (default: latest)
 	Since  string `json:"since,omitempty"` // until: only events recorded after this mark
+	Point  string `json:"point,omitempty"` // hold / release: name of a pause point
+	Skip   int    `json:"skip,omitempty"`  // hold: let this many arrivals pass first
 }
 
 type Scenario struct {
@@ -373,6 +375,12 @@ func Run(sc *Scenario, outDir string) Outcome {
 				}
 			} else {
 				s.Rec.Emit("drv", "NoProc", "who", op.Who)
+			}
+		case "hold":
+			s.Gates.Hold(op.Point, op.N, op.Skip)
+		case "release":
+			if !s.Gates.Release(op.Point) {
+				s.Rec.Emit("drv", "NothingHeld", "point", op.Point)
 			}
 		case "mark":
 			sq := s.Rec.Emit("drv", "Mark", "name", op.Name)
